@@ -43,6 +43,8 @@ use std::time::{Duration, Instant};
 
 #[path = "c15_mem.rs"]
 mod mem;
+#[path = "c15_pre.rs"]
+mod pre;
 #[path = "c15_tcp.rs"]
 mod tcp;
 
@@ -911,6 +913,8 @@ pub(crate) fn evaluate(w: &World, facts: &[ConnFacts], shared_end: bool, out: &m
 pub(crate) enum Scenario {
     Mem(mem::MemScenario),
     Tcp(tcp::TcpScenario),
+    /// serving starts after the embedder's token was cancelled
+    Pre(pre::PreScenario),
 }
 
 impl Scenario {
@@ -918,12 +922,14 @@ impl Scenario {
         match self {
             Scenario::Mem(m) => m.to_json(),
             Scenario::Tcp(t) => t.to_json(),
+            Scenario::Pre(p) => p.to_json(),
         }
     }
     fn from_json(v: &Value) -> Result<Scenario, String> {
         match v["kind"].as_str() {
             Some("mem") => Ok(Scenario::Mem(mem::MemScenario::from_json(v)?)),
             Some("tcp") => Ok(Scenario::Tcp(tcp::TcpScenario::from_json(v)?)),
+            Some("pre-cancelled") => Ok(Scenario::Pre(pre::PreScenario::from_json(v)?)),
             _ => Err("unknown scenario kind".into()),
         }
     }
@@ -931,6 +937,7 @@ impl Scenario {
         match self {
             Scenario::Mem(m) => mem::run(m),
             Scenario::Tcp(t) => tcp::run(t),
+            Scenario::Pre(p) => pre::run(p),
         }
     }
 }
@@ -954,6 +961,12 @@ fn mem_sc(variant: Variant, conns: Vec<Cell>, shared_token: bool, reverse_end: b
 
 fn enumerate(tier: Tier, skipped: &mut BTreeMap<String, u64>) -> Vec<Scenario> {
     let mut v = Vec::new();
+    // (0) serving begins under an already cancelled token
+    for variant in [Variant::Cancel, Variant::CancelHandshake] {
+        for n in 1..=3 {
+            v.push(Scenario::Pre(pre::PreScenario { variant, n }));
+        }
+    }
     // (1) one connection: every cell on every entry point
     for &variant in &VARIANTS {
         for &cause in &CAUSES {
